@@ -527,6 +527,8 @@ def _read_offline(input, skip=0, max_read=None, **kwargs):
         else:
             max_read = round(max_read * audio_source.sampling_rate)
     data = audio_source.read(max_read)
+    if data is None:
+        data = b""
     audio_source.close()
     return (
         data,
